@@ -360,3 +360,126 @@ def ownership_rule(prog, rep, rule, which=("Term", "GroupSpecificTerm")):
             "; ".join(f"{a[1]}: {a[3]}" for a in bad) + " - objects with per-term evaluation state get two holders "
             "(labels and columns disagree; evaluating the training frame as new data changes the width)")
     return len(sites)
+
+
+# ------------------------------------------------------------------------------------------
+# identity: __eq__ compares every identity field completely (R2.1e, R12.6)
+# ------------------------------------------------------------------------------------------
+def eq_compares_fields(prog, rep, rule, class_quals, extra_from_str=False):
+    from .C02 import _constant_fields, _self_fields
+
+    for q in class_quals:
+        cls = prog.cls(q)
+        e, h = cls.methods.get("__eq__"), cls.methods.get("__hash__")
+        if e is None or h is None:
+            continue
+        fields = _self_fields(h.node) - {"__class__"} - _constant_fields(cls)
+        if extra_from_str and "__str__" in cls.methods:
+            fields |= (_self_fields(cls.methods["__str__"].node) & _self_fields(e.node)) - {"__class__"}
+        other = e.params[1]
+        direct = set()
+        for n in ast.walk(e.node):
+            if isinstance(n, ast.Compare) and len(n.ops) == 1 and isinstance(n.ops[0], ast.Eq):
+                a, b = n.left, n.comparators[0]
+                for x, y in ((a, b), (b, a)):
+                    if is_self_attr(x) and isinstance(y, ast.Attribute) and isinstance(y.value, ast.Name) and y.value.id == other and y.attr == x.attr:
+                        direct.add(x.attr)
+        # the direct comparisons must all be conjuncts of what is returned (not under `or`, not negated)
+        ors = [n for n in ast.walk(e.node) if isinstance(n, ast.BoolOp) and isinstance(n.op, ast.Or)]
+        missing = sorted(fields - direct)
+        obl(rep, e, e.node, rule, not missing and not ors,
+            f"{cls.name}.__eq__ compares every identity field completely: {sorted(fields)}",
+            "each field is compared as `self.f == other.f`",
+            f"{cls.name}.__eq__ does not compare {missing} as a whole (`self.f == other.f`): objects that differ only there "
+            "(a longer argument list, another keyword value) are treated as the same term and merged by + / removed by -")
+
+
+# ------------------------------------------------------------------------------------------
+# dtype narrowing: no data-dependent value is stored into an integer-typed / borrowed-dtype array
+# ------------------------------------------------------------------------------------------
+ALLOC = {"np.zeros", "np.empty", "np.ones", "np.full", "np.eye", "np.zeros_like", "np.empty_like", "np.ones_like", "np.ndarray", "np.identity"}
+
+
+def _int_like_dtype(node):
+    """'int' | 'borrowed:<expr>' | None for the dtype= argument of an allocation"""
+    if node is None:
+        return None
+    s = unparse(node)
+    if s in ("int", "'int'", "np.int64", "np.int32", "np.int_", "np.intp", "'int64'", "'int32'", "'i8'", "'i4'", "bool", "np.bool_", "np.int8", "np.uint8"):
+        return "int"
+    if isinstance(node, ast.Attribute) and node.attr == "dtype":
+        return "borrowed:" + unparse(node.value)
+    if isinstance(node, ast.IfExp):
+        a, b = _int_like_dtype(node.body), _int_like_dtype(node.orelse)
+        if a or b:
+            return "conditional:" + s
+    if isinstance(node, ast.Name) and node.id not in ("float", "complex", "object"):
+        return "computed:" + s
+    return None
+
+
+def dtype_narrowing(prog, rep, rule, fns=None):
+    n = 0
+    for q, f in sorted(prog.functions.items()):
+        if f.parent is not None or (fns is not None and q not in fns):
+            continue
+        allocs = {}
+        ldefs = {}
+        for s in ast.walk(f.node):
+            if isinstance(s, ast.Assign) and len(s.targets) == 1 and isinstance(s.targets[0], ast.Name):
+                ldefs.setdefault(s.targets[0].id, []).append(s.value)
+        for s in ast.walk(f.node):
+            if isinstance(s, ast.Assign) and len(s.targets) == 1 and isinstance(s.targets[0], (ast.Name, ast.Attribute)) and isinstance(s.value, ast.Call) \
+                    and dotted(s.value.func) in ALLOC:
+                dt = None
+                for k in s.value.keywords:
+                    if k.arg == "dtype":
+                        dv = k.value
+                        if isinstance(dv, ast.Name) and len(ldefs.get(dv.id, [])) == 1:
+                            dv = ldefs[dv.id][0]
+                        dt = _int_like_dtype(dv)
+                if dotted(s.value.func) in ("np.zeros_like", "np.empty_like", "np.ones_like") and s.value.args and dt is None:
+                    dt = "borrowed:" + unparse(s.value.args[0])
+                if dt:
+                    allocs[unparse(s.targets[0])] = (dt, s)
+        if not allocs:
+            continue
+        for s in ast.walk(f.node):
+            tgt, val = None, None
+            if isinstance(s, ast.Assign) and len(s.targets) == 1 and isinstance(s.targets[0], ast.Subscript):
+                tgt, val = unparse(s.targets[0].value), s.value
+            elif isinstance(s, ast.AugAssign) and isinstance(s.target, ast.Subscript):
+                tgt, val = unparse(s.target.value), s.value
+            elif isinstance(s, ast.AugAssign) and isinstance(s.target, (ast.Name, ast.Attribute)):
+                tgt, val = unparse(s.target), s.value
+            if tgt not in allocs:
+                continue
+            n += 1
+            dt, alloc = allocs[tgt]
+
+            def int_valued(v):
+                if isinstance(v, ast.Constant) and isinstance(v.value, (int, bool)) and not isinstance(v.value, float):
+                    return True
+                if isinstance(v, ast.UnaryOp) and isinstance(v.op, ast.USub):
+                    return int_valued(v.operand)
+                if isinstance(v, ast.Subscript) and unparse(v.value) in allocs and allocs[unparse(v.value)][0] == "int":
+                    return True
+                if isinstance(v, (ast.Name, ast.Attribute)) and unparse(v) in allocs and allocs[unparse(v)][0] == "int":
+                    return True
+                if isinstance(v, ast.BinOp) and isinstance(v.op, (ast.Add, ast.Sub, ast.Mult)):
+                    return int_valued(v.left) and int_valued(v.right)
+                return False
+
+            ok = int_valued(val)
+            if not ok and dt.startswith("borrowed:"):
+                # values taken from the very array the dtype was borrowed from keep their type
+                src = dt.split(":", 1)[1]
+                v = val
+                while isinstance(v, ast.Subscript):
+                    v = v.value
+                ok = unparse(v) == src
+            obl(rep, f, s, rule, ok, f"`{short(s, 60)}` into `{tgt}` allocated as `{short(alloc.value, 50)}`",
+                "the stored value is an integer constant / comes from an integer table",
+                f"`{tgt}` has dtype {dt.split(':')[0]} ({short(alloc.value, 50)}) but receives `{short(val, 40)}`: numpy silently truncates / wraps "
+                "real-valued data (e.g. -1.75 becomes -1)")
+    return n
